@@ -162,3 +162,16 @@ void cvtf(Rng& rng)
         VH_RUN((convert<Tag, D>{}(x)), print_tv)
     }
 }
+
+
+// the three operators with an intrinsic fast path, for sweeping every operand type pair cheaply
+template<class Tag, class L, class R>
+void pair_arith(Rng& rng)
+{
+    std::vector<L> lv;
+    std::vector<R> rv;
+    operands<L, R>(rng, lv, rv);
+    bin<Tag, _impl::add_op, L, R>("add", lv, rv);
+    bin<Tag, _impl::subtract_op, L, R>("sub", lv, rv);
+    bin<Tag, _impl::multiply_op, L, R>("mul", lv, rv);
+}
